@@ -3,9 +3,12 @@ package main
 
 import (
 	"fmt"
+
 	"os"
 	"sort"
 	"strings"
+	"verif/internal/explore"
+	"verif/internal/oracle"
 )
 
 type cmd struct {
@@ -18,6 +21,7 @@ var cmds = map[string]cmd{}
 func register(name, help string, f func(args []string) int) { cmds[name] = cmd{f, help} }
 
 func main() {
+	oracle.PanicSite = explore.PanicSite
 	if len(os.Args) < 2 {
 		usage()
 		os.Exit(2)
